@@ -1,6 +1,8 @@
 package sym
 
 import (
+	"net"
+	"strconv"
 	"fmt"
 	"go/types"
 	"strings"
@@ -423,13 +425,59 @@ func (ex *Exec) initIntrinsics() {
 		st.ghost[key] = out
 		return out
 	}
+	// net.IP.String: formatting; concrete addresses are formatted natively, symbolic ones give an opaque text
+	in["(net.IP).String"] = func(ex *Exec, st *State, args []Value, site ssa.CallInstruction) Value {
+		s := args[0].(SliceV)
+		if s.Obj == 0 {
+			return conStr("<nil>")
+		}
+		if s.Len.IsConst() {
+			n := int(s.Len.V)
+			cells := st.termCells(s, n)
+			b := make([]byte, n)
+			all := true
+			for i, cl := range cells {
+				if !cl.IsConst() {
+					all = false
+					break
+				}
+				b[i] = byte(cl.V)
+			}
+			if all {
+				return conStr(net.IP(b).String())
+			}
+		}
+		return conStr("‹ip›")
+	}
+	// number formatting: concrete values natively, symbolic values give an opaque text (formatting is never the subject)
+	in["strconv.FormatInt"] = func(ex *Exec, st *State, args []Value, site ssa.CallInstruction) Value {
+		v, b := args[0].(*Term), args[1].(*Term)
+		if v.IsConst() && b.IsConst() {
+			return conStr(strconv.FormatInt(int64(v.V), int(b.V)))
+		}
+		return conStr("‹num›")
+	}
+	in["strconv.FormatUint"] = func(ex *Exec, st *State, args []Value, site ssa.CallInstruction) Value {
+		v, b := args[0].(*Term), args[1].(*Term)
+		if v.IsConst() && b.IsConst() {
+			return conStr(strconv.FormatUint(v.V, int(b.V)))
+		}
+		return conStr("‹num›")
+	}
+	in["strconv.Itoa"] = func(ex *Exec, st *State, args []Value, site ssa.CallInstruction) Value {
+		v := args[0].(*Term)
+		if v.IsConst() {
+			return conStr(strconv.Itoa(int(int64(v.V))))
+		}
+		return conStr("‹num›")
+	}
 	in["sync.runtime_registerPoolCleanup"] = nop
 	in["sync.runtime_notifyListCheck"] = nop
 	in["regexp.MustCompile"] = func(ex *Exec, st *State, args []Value, site ssa.CallInstruction) Value {
 		return Ptr{Obj: st.alloc(StructV{args[0]}, nil)} // opaque; regexp methods are not modelled
 	}
 	in["net.Interfaces"] = func(ex *Exec, st *State, args []Value, site ssa.CallInstruction) Value {
-		return TupleV{SliceV{}, IfaceV{}}
+		return TupleV{ex.nilSlice(), IfaceV{}}
 	}
 	in["runtime/debug.ReadBuildInfo"] = func(ex *Exec, st *State, args []Value, site ssa.CallInstruction) Value {
 		return TupleV{Ptr{}, c.False}
@@ -463,7 +511,7 @@ func (ex *Exec) initIntrinsics() {
 		envFill(ex, st, s)
 		return TupleV{s.Len, IfaceV{}}
 	}
-	in["syscall.runtime_envs"] = func(ex *Exec, st *State, args []Value, site ssa.CallInstruction) Value { return SliceV{} }
+	in["syscall.runtime_envs"] = func(ex *Exec, st *State, args []Value, site ssa.CallInstruction) Value { return ex.nilSlice() }
 	in["internal/reflectlite.ValueOf"] = func(ex *Exec, st *State, args []Value, site ssa.CallInstruction) Value {
 		iv := args[0].(IfaceV)
 		return ReflV{T: iv.T, V: iv.V, Valid: iv.T != nil}
